@@ -253,6 +253,13 @@ pub fn hard_shapes() -> Vec<ShapeSpec> {
         ShapeSpec::Trimer(0.637556, 120., 1.),
         ShapeSpec::Trimer(0.2, 180., 3.),
         ShapeSpec::Trimer(0.7, 90., 1.2),
+        // a central disc that reaches further than the outer ones; outer discs larger than the
+        // central one; a shape without any mirror line; more sides
+        ShapeSpec::Trimer(0.2, 120., 1.),
+        ShapeSpec::Trimer(1.4, 180., 1.),
+        ShapeSpec::Radial(vec![1., 0.5, 0.8, 0.3]),
+        ShapeSpec::Polygon(7),
+        ShapeSpec::Polygon(8),
     ]
 }
 pub fn lj_shapes() -> Vec<ShapeSpec> {
@@ -260,6 +267,8 @@ pub fn lj_shapes() -> Vec<ShapeSpec> {
         ShapeSpec::Circle,
         ShapeSpec::Trimer(0.637556, 120., 1.),
         ShapeSpec::Trimer(0.5, 180., 1.),
+        ShapeSpec::Trimer(1.4, 100., 1.),
+        ShapeSpec::Trimer(0.2, 120., 1.),
     ]
 }
 
